@@ -38,10 +38,10 @@ def slices(tier):
     ]
     if not q:
         out += [
-            Slice("arith3", [F, U, A], ARITH, 4, lits=[LIT["two"], LIT["zero"]], levels=[ARITH, ARITH, ARITH, PE], **kw),
-            Slice("index-wide", [U, A, ("T", (2, 2, 2))], IDX, 4, idx=(10, 11), maxrank=3, levels=[IDX, IDX, IDX, PE], **kw),
-            Slice("alg-nested", [U, A, B], ALG, 4, idx=(10,), levels=[ALG, ALG, ALG, PE], **kw),
-            Slice("cond-wide", [F, G, U], COND | {"neg", "index"}, 4, lits=[LIT["zero"], LIT["one"]], levels=[COND | {"index"}, COND, COND, PE], **kw),
+            Slice("arith3", [F, U, A], ARITH, 4, lits=[LIT["two"], LIT["zero"]], levels=[ARITH, ARITH, ARITH, PE], chain=True, simulate=2000, depth=6, **kw),
+            Slice("index-wide", [U, A, ("T", (2, 2, 2))], IDX, 4, idx=(10, 11), maxrank=3, levels=[IDX, IDX, IDX, PE], chain=True, simulate=2000, depth=6, **kw),
+            Slice("alg-nested", [U, A, B], ALG, 4, idx=(10,), levels=[ALG, ALG, ALG, PE], chain=True, simulate=2000, depth=6, **kw),
+            Slice("cond-wide", [F, G, U], COND | {"neg", "index"}, 4, lits=[LIT["zero"], LIT["one"]], levels=[COND | {"index"}, COND, COND, PE], chain=True, simulate=2000, depth=6, **kw),
         ]
     return out
 
